@@ -30,6 +30,10 @@ cdi = N('scxml', 0, [N('state', 1, [N('parallel', 2, [N('state', 3, [N('state', 
                                                       N('state', 6, [N('state', 13), N('state', 11, [N('state', 14), N('state', 7)])])])], init=[4, 7]),
                      N('state', 9, trans=[T(104, b'e', None, [1])])], init=[9])
 
+# RMI: <scxml initial="s3 s6"> naming states in two regions of a <parallel>: Appendix D enters the descendants of ALL targets
+# first (Spec.v used to fold per target and entered s5 and s6; corrected), the engines enter {1,2,3,4,6}
+rmi = N('scxml', 0, [N('parallel', 1, [N('state', 2, [N('state', 3)]), N('state', 4, [N('state', 5), N('state', 6)])])], init=[3, 6])
+
 SWITCH_WITNESSES = [
     ('exit_interval_overreach', d1, [b'go', b'e']),
     ('targetless_exits_root', d2, [b'e']),
@@ -88,4 +92,5 @@ CORPUS = [
     ('kht-history-target-domain', kht, [b'e'], 'null'),
     ('fdh-deep-history-multi-target-default', fdh, [b'e'], 'null'),
     ('cdi-deep-initial-attribute-two-regions', cdi, [b'e'], 'null'),
+    ('rmi-root-multi-target-initial', rmi, [], 'null'),
 ]
